@@ -55,6 +55,18 @@ Definition deliver (c : cfg) (opcode : N) (merged : bytes) (m : mstate) : hres :
     else HOk [MText merged] m
   else HOk [MBinary merged] m.
 
+(* a whole message: inflate if `compressed` (truthy), post-inflate size test, delivery; _partial is cleared *)
+Definition complete (c : cfg) (cx : Cx) (opcode mop : N) (assembled : bytes) (compressed : N) : hres :=
+  if negb (compressed =? 0) then
+    match decomp cx (assembled ++ WS_DEFLATE_TRAILING) (inflate_cap (max_msg_size c)) with
+    | DTooMany => HErr (WsErr CODE_MESSAGE_TOO_BIG)
+    | DErr => HErr CodecErr
+    | DOk out cx' =>
+      if inflated_too_big (max_msg_size c) (lenN out) then HErr (WsErr CODE_MESSAGE_TOO_BIG)
+      else deliver c opcode out (mkm [] mop cx')
+    end
+  else deliver c opcode assembled (mkm [] mop cx).
+
 Definition handle_frame (c : cfg) (m : mstate) (fin : bool) (opcode : N) (payload : bytes) (compressed : N) : hres :=
   if (opcode =? OP_TEXT) || (opcode =? OP_BINARY) || (opcode =? OP_CONTINUATION) then
     if cont_not_started opcode (m_opcode m) then perr
@@ -67,16 +79,7 @@ Definition handle_frame (c : cfg) (m : mstate) (fin : bool) (opcode : N) (payloa
       else
         let opcode' := if opcode =? OP_CONTINUATION then m_opcode m else opcode in
         let mop' := if opcode =? OP_CONTINUATION then NOT_SET_OP else m_opcode m in
-        let assembled := m_partial m ++ payload in
-        if negb (compressed =? 0) then
-          match decomp (m_cx m) (assembled ++ WS_DEFLATE_TRAILING) (inflate_cap (max_msg_size c)) with
-          | DTooMany => HErr (WsErr CODE_MESSAGE_TOO_BIG)
-          | DErr => HErr CodecErr
-          | DOk out cx' =>
-            if inflated_too_big (max_msg_size c) (lenN out) then HErr (WsErr CODE_MESSAGE_TOO_BIG)
-            else deliver c opcode' out (mkm [] mop' cx')
-          end
-        else deliver c opcode' assembled (mkm [] mop' (m_cx m))
+        complete c (m_cx m) opcode' mop' (m_partial m ++ payload) compressed
   else if opcode =? OP_CLOSE then
     match payload with
     | b0 :: b1 :: reason =>                      (* payload_len >= 2 *)
